@@ -24,7 +24,11 @@ EXPLANATION = (
     'by max(monotonicities), and the lattice layers receive the '
     'monotonicities of their own group (W7); the random ensemble fills each '
     'lattice by sampling without replacement from the features not already in '
-    'it (W7).')
+    'it (W7); in the Crystals placement every full lattice scores strictly '
+    'below every lattice with a free slot in each of the five abstract '
+    'states (full / holds the feature / empty), the best score is taken, and '
+    'the number of placements equals num_lattices * lattice_rank, so no '
+    'lattice exceeds lattice_rank (W7).')
 ASSUMPTIONS = ['np.random.RandomState(seed) / np.random.seed(seed) make all '
                'later draws a function of the seed',
                'sorted() of the two dict key strings is stable']
@@ -57,8 +61,9 @@ def run(prog, res):
   _w7_flatten(prog, res)
   _w7_keys(prog, res)
   _w7_random_ensemble(prog, res)
+  _w7_crystals(prog, res)
   res.floor('X4', 10)
-  res.floor('W7', 11)
+  res.floor('W7', 14)
 
 
 def _w7_structure(prog, res):
@@ -327,3 +332,189 @@ def _w7_random_ensemble(prog, res):
             'remaining size = lattice_rank - len(lattice)',
             'the number of sampled features is not lattice_rank - '
             'len(lattice)')
+
+
+# ---------------------------------------------------------------------------
+def _w7_crystals(prog, res):
+  """Greedy placement of _get_final_crystal_lattices: exactly
+  num_lattices * lattice_rank features are placed (asserted) and the lattice
+  with the highest addition score receives the feature.  Every lattice ends
+  with exactly lattice_rank features iff a full lattice is never preferred to
+  one with a free slot, i.e. in every abstract state the score of a full
+  lattice is strictly below the score of every non-full lattice.  The
+  if-chain is evaluated on the five consistent states of (full, holds the
+  feature, empty); scores are constants or torsion sums (>= 0: the torsion
+  regulariser is a sum of squares)."""
+  fn = prog.function('premade_lib._get_final_crystal_lattices')
+  res.analysed(fn)
+  key = fn.qualname
+  chain = None
+  for n in ast.walk(fn.node):
+    if isinstance(n, ast.For) and any(
+        isinstance(x, ast.If) and any(
+            isinstance(a, ast.Assign) and dotted(a.targets[0]) ==
+            'addition_score' for a in x.body) for x in n.body):
+      loop = n
+      chain = [x for x in n.body if isinstance(x, ast.If)][0]
+  if chain is None:
+    raise AnalysisError('%s: the addition_score if-chain vanished' % key)
+  cand = dotted(loop.target)
+
+  def atom(t):
+    """(atom, polarity) for a recognised elementary test, else None."""
+    if isinstance(t, ast.UnaryOp) and isinstance(t.op, ast.Not):
+      a = atom(t.operand)
+      return None if a is None else (a[0], not a[1])
+    if isinstance(t, ast.Compare) and len(t.ops) == 1:
+      l, r, op = t.left, t.comparators[0], t.ops[0]
+      if isinstance(l, ast.Call) and dotted(l.func) == 'len' and \
+          _is_cand(l.args[0]):
+        rd = dotted(r) or ''
+        if rd.endswith('lattice_rank'):
+          if isinstance(op, (ast.GtE, ast.Eq)):
+            return ('full', True)
+          if isinstance(op, ast.Lt):
+            return ('full', False)
+          return None
+        if const_value(r, None) == 0:
+          if isinstance(op, ast.Eq):
+            return ('empty', True)
+          if isinstance(op, (ast.Gt, ast.NotEq)):
+            return ('empty', False)
+        return None
+      if isinstance(op, (ast.In, ast.NotIn)) and _is_cand(r) and dotted(
+          l) == 'feature_to_be_added':
+        return ('holds', isinstance(op, ast.In))
+      return None
+    if _is_cand(t):
+      return ('empty', False)
+    return None
+
+  def _is_cand(e):
+    return isinstance(e, ast.Subscript) and dotted(e.value) == 'lattices' \
+        and dotted(e.slice) == cand
+
+  def truth(t, st):
+    if isinstance(t, ast.BoolOp):
+      vals = [truth(v, st) for v in t.values]
+      return all(vals) if isinstance(t.op, ast.And) else any(vals)
+    a = atom(t)
+    if a is None:
+      raise AnalysisError('%s: test `%s` of the addition_score chain is not '
+                          'a capacity / membership / emptiness test' % (
+                              fn.loc(t), norm_text(t)[:60]))
+    return st[a[0]] == a[1]
+
+  def score(stmts):
+    """('const', c) or ('nonneg', text)"""
+    assigns = [x for x in stmts if isinstance(x, ast.Assign) and dotted(
+        x.targets[0]) == 'addition_score']
+    augs = [x for x in ast.walk(ast.Module(body=list(stmts), type_ignores=[]))
+            if isinstance(x, ast.AugAssign) and dotted(x.target) ==
+            'addition_score']
+    if len(assigns) != 1:
+      raise AnalysisError('%s: a branch of the addition_score chain does not '
+                          'assign the score exactly once' % key)
+    c = const_value(assigns[0].value, None)
+    if isinstance(c, (int, float)) and not augs:
+      return ('const', float(c))
+    reads = names_read(assigns[0].value)
+    for a in augs:
+      reads |= names_read(a.value)
+      if not isinstance(a.op, ast.Add):
+        raise AnalysisError('%s: addition_score is updated by %s' % (
+            key, type(a.op).__name__))
+    if (isinstance(c, (int, float)) and c >= 0 or c is None) and \
+        'torsions' in reads:
+      return ('nonneg', norm_text(assigns[0].value)[:40])
+    raise AnalysisError('%s: cannot bound the score `%s`' % (
+        key, norm_text(assigns[0].value)[:50]))
+
+  def run_chain(node, st):
+    while True:
+      if truth(node.test, st):
+        return score(node.body)
+      if len(node.orelse) == 1 and isinstance(node.orelse[0], ast.If):
+        node = node.orelse[0]
+        continue
+      if not node.orelse:
+        raise AnalysisError('%s: the addition_score chain has no else' % key)
+      return score(node.orelse)
+
+  states = [dict(full=f, holds=h, empty=e) for f, h, e in (
+      (False, False, True), (False, False, False), (False, True, False),
+      (True, False, False), (True, True, False))]
+  got = [(st, run_chain(chain, st)) for st in states]
+  full_scores = [(st, sc) for st, sc in got if st['full']]
+  free_scores = [(st, sc) for st, sc in got if not st['full']]
+  bad = None
+  for st, sc in full_scores:
+    if sc[0] != 'const':
+      bad = 'a full lattice (%s) gets the non-constant score %s' % (st, sc[1])
+      break
+    for st2, sc2 in free_scores:
+      lo = sc2[1] if sc2[0] == 'const' else 0.0
+      if not sc[1] < lo:
+        bad = ('a full lattice (holds the feature: %s) scores %s, not below '
+               'the score %s of a lattice with a free slot (holds the '
+               'feature: %s, empty: %s): the full lattice can be chosen and '
+               'ends with more than lattice_rank features while another '
+               'stays short' % (st['holds'], sc[1], lo, st2['holds'],
+                                st2['empty']))
+        break
+    if bad:
+      break
+  res.check(bad is None, 'W7', key + '|capacity-dominates', fn.loc(chain),
+            'in all 5 states a full lattice scores strictly below every '
+            'lattice with a free slot (%s)' % ', '.join(
+                '%s%s%s->%s' % ('F' if st['full'] else 'f',
+                                'H' if st['holds'] else 'h',
+                                'E' if st['empty'] else 'e', sc[1])
+                for st, sc in got), bad or '')
+  # the best score is taken
+  srt = [c for c in ast.walk(loop.iter if False else fn.node)
+         if isinstance(c, ast.Call) and isinstance(c.func, ast.Attribute) and
+         c.func.attr == 'sort' and dotted(c.func.value) ==
+         'score_candidates_pairs']
+  pick = [a for a in ast.walk(fn.node) if isinstance(a, ast.Assign) and
+          dotted(a.targets[0]) == 'best_candidate_lattice_to_add_to']
+  good = False
+  if len(srt) == 1 and len(pick) == 1:
+    kw = {k.arg: k.value for k in srt[0].keywords}
+    rev = const_value(kw.get('reverse'), None) is True
+    v = pick[0].value
+    first = isinstance(v, ast.Subscript) and isinstance(
+        v.value, ast.Subscript) and dotted(v.value.value) == \
+        'score_candidates_pairs' and const_value(v.slice, None) == 1
+    idx = const_value(v.value.slice, None) if first else None
+    good = first and ((rev and idx == 0) or (not rev and idx == -1)) and \
+        'key' not in kw
+  res.check(good, 'W7', key + '|takes-best', fn.loc(pick[0] if pick else None),
+            'the candidate with the highest (score, index) pair is chosen',
+            'the placement no longer takes the highest scoring candidate '
+            '(sort reverse / element picked changed): a full lattice (lowest '
+            'score) can be chosen')
+  # number of placements = num_lattices * lattice_rank
+  asserts = [a for a in ast.walk(fn.node) if isinstance(a, ast.Assert)]
+  tot = [a for a in ast.walk(fn.node) if isinstance(a, ast.Assign) and dotted(
+      a.targets[0]) == 'total_feature_use']
+  ok_tot = False
+  if tot and isinstance(tot[0].value, ast.BinOp) and isinstance(
+      tot[0].value.op, ast.Mult):
+    ops = {(dotted(tot[0].value.left) or '').split('.')[-1],
+           (dotted(tot[0].value.right) or '').split('.')[-1]}
+    ok_tot = ops == {'num_lattices', 'lattice_rank'}
+  ok_len = any(norm_text(a.test).replace(' ', '') ==
+               'len(add_list)==total_feature_use' for a in asserts)
+  feeds = isinstance(loop, ast.For) and False
+  for n in ast.walk(fn.node):
+    if isinstance(n, ast.For) and dotted(n.iter) == 'add_list' and dotted(
+        n.target) == 'feature_to_be_added':
+      feeds = True
+  res.check(ok_tot and ok_len and feeds, 'W7', key + '|placement-count',
+            fn.loc(tot[0] if tot else None),
+            'add_list has num_lattices * lattice_rank entries (asserted) and '
+            'each is placed once',
+            'the number of placements is no longer tied to num_lattices * '
+            'lattice_rank (total: %s, assert on add_list: %s, loop over '
+            'add_list: %s)' % (ok_tot, ok_len, feeds))
